@@ -7,7 +7,7 @@
    trees against `denote` inside Coq. *)
 From Coq Require Import ZArith List Bool.
 Import ListNotations.
-Require Import Amoco.Exp.Sem Amoco.Exp.Cst Amoco.Exp.CstProofs Amoco.Exp.Eval Amoco.Exp.EvalProofs Amoco.Exp.Rules Amoco.Exp.RulesProofs.
+Require Import Amoco.Exp.Sem Amoco.Exp.Cst Amoco.Exp.CstProofs Amoco.Exp.Eval Amoco.Exp.EvalProofs Amoco.Exp.Rules Amoco.Exp.RulesProofs Amoco.Exp.Rules2 Amoco.Exp.Rules2Proofs.
 Open Scope Z_scope.
 
 (* --- constant folding: every cst operator, every width, any sign flags on the operands --- *)
@@ -105,6 +105,19 @@ Theorem C01_same_operand_rule_printed_form_refuted :
 Proof. exact r2_same_mixed_sign_refuted. Qed.
 Print Assumptions C01_same_operand_rule_printed_form_refuted.
 
+(* slc.simplify pushing a slice through & | ^ ~ at any position and through + - unary-minus at position 0 only, and
+   tst.simplify on a constant condition: sound for every operand, width, position and valuation *)
+Theorem C01_slice_and_conditional_rules_sound : forall r, In r rules2_unconditional ->
+  forall e e', wf e = true -> r e = Some e' ->
+  esize e' = esize e /\ forall env d, denote env e = Some d -> denote env e' = Some d.
+Proof. intros r Hin. exact (proj1 (Forall_forall _ _) rules2_sound r Hin). Qed.
+Print Assumptions C01_slice_and_conditional_rules_sound.
+
+Theorem C01_conditional_same_branches_sound : forall e e', wf e = true -> r4_tst_same e = Some e' -> branches_identical e = true ->
+  esize e' = esize e /\ forall env d, denote env e = Some d -> denote env e' = Some d.
+Proof. exact r4_tst_same_sound. Qed.
+Print Assumptions C01_conditional_same_branches_sound.
+
 (* Non-vacuity of the rule theorems: each rule fires on a concrete well-sized node *)
 Example C01_rules_fire :
   let a := EReg 0 8 false in let b := EReg 1 8 false in let k c := ECst c 8 false in
@@ -116,6 +129,9 @@ Example C01_rules_fire :
   r2_shift_out (EOp Shr a (k 9) 8 false) = Some (ECst 0 8 false) /\
   r2_eq_bit (EOp Eq (EOp Lt a b 1 false) (ECst 0 1 false) 1 false) = Some (EOp Ge a b 1 false) /\
   r1_neg_arith (EUop Neg (EOp Sub a b 8 false) 8 false) = Some (EOp Add (EUop Neg a 8 false) b 8 false) /\
+  r3_slc_push (ESlc (EOp And a b 8 false) 2 4 false) = Some (EOp And (ESlc a 2 4 false) (ESlc b 2 4 false) 4 false) /\
+  r3_slc_push (ESlc (EOp Add a b 8 false) 2 4 false) = None /\
+  r4_tst_const (ETst (ECst 0 1 false) a b 8 false) = Some b /\
   r2_comp_logic (EOp Xor (ECat (EReg 2 4 false) (EReg 3 4 false) 8 false) (k 90) 8 false)
     = Some (ECat (EOp Xor (EReg 2 4 false) (ECst 10 4 false) 4 false) (EOp Xor (EReg 3 4 false) (ECst 5 4 false) 4 false) 8 false).
 Proof. vm_compute. repeat split; reflexivity. Qed.
